@@ -12,6 +12,7 @@ import (
 	"fmt"
 	"io"
 	"os"
+	"sync/atomic"
 
 	"k8s.io/klog/v2"
 
@@ -40,11 +41,11 @@ func main() {
 
 	h.findingReplays()
 	nSeq := lib.Count(140, 1500)
-	for i := 0; i < nSeq; i++ {
+	for i := 0; i < nSeq && atomic.LoadInt32(&hangs) < 3; i++ {
 		h.sequentialCase(i)
 	}
 	nConc := lib.Count(24, 300)
-	for i := 0; i < nConc; i++ {
+	for i := 0; i < nConc && atomic.LoadInt32(&hangs) < 6; i++ {
 		h.concurrentCase(i)
 	}
 	nVer := lib.Count(400, 6000)
